@@ -147,12 +147,13 @@ func classifyGeometry(calls []Call, prevP *canvas.Path, prevM, m *Model, p *canv
 			return "geometry:shape:" + last[:strings.IndexByte(last, '(')]
 		}
 	}
-	// 1a. the request before the last call ends in "MoveTo, Close": a closed subpath without
-	// segments; what is drawn (or closed) next belongs to a new subpath at that point
+	// 1a. the request before the last call ends in "MoveTo, (zero-length commands,) Close": a
+	// closed subpath without extent; what is drawn (or closed) next belongs to a new subpath
+	// at that point
 	if pl := prevM.last(); pl != nil && pl.Closed {
 		drawn := false
 		for _, s := range pl.Segs {
-			if s.Kind != oracle.CmdClose {
+			if s.Kind != oracle.CmdClose && !s.ZeroLength(ZeroEps) {
 				drawn = true
 			}
 		}
